@@ -42,6 +42,10 @@ def targeted(scratch):
     out["index_join_outer"] = lambda: d[["a"]].partitions[[0, 1, 2]].merge(d[["b"]], left_index=True, right_index=True, how="outer")
     out["concat0"] = lambda: dx.concat([d.partitions[[0, 1]], d.partitions[[4, 5]]])
     out["concat0_overlap"] = lambda: dx.concat([d, d])
+    # inputs whose index ranges touch: the max of the first equals the min of the second (shared boundary value)
+    out["concat0_touching"] = lambda: dx.concat([dx.from_pandas(pdf.iloc[:21], npartitions=2), dx.from_pandas(pdf.iloc[20:], npartitions=2)])
+    out["concat0_touching3"] = lambda: dx.concat([dx.from_pandas(pdf.iloc[:11], npartitions=1), dx.from_pandas(pdf.iloc[10:31], npartitions=3), dx.from_pandas(pdf.iloc[30:], npartitions=1)])
+    out["concat0_adjacent"] = lambda: dx.concat([dx.from_pandas(pdf.iloc[:20], npartitions=2), dx.from_pandas(pdf.iloc[20:], npartitions=2)])
     out["concat1"] = lambda: dx.concat([d[["a"]], d[["b"]].repartition(npartitions=3)], axis=1)
     out["loc_slice"] = lambda: d.loc[10:50]
     out["loc_slice_open"] = lambda: d.loc[33:]
